@@ -312,6 +312,41 @@ def check_fresh_twin(o, form, res):
     return True
 
 
+def check_query_mutate_query(case, res):
+    """a second object of the same case is queried, then changed through its own API (an arc that the object accepts; for the arc-based
+    form also another time grid; for the sequence-based form also one more vehicle), then compared with a cache-free twin of its new
+    state: what it reports must be what its current data say"""
+    form = case["form"]
+    if case.get("mirp") is not None:
+        return
+    try:
+        o, outcome = build_form(case)
+        if outcome not in (None, "ok"):
+            return
+        if int(o.get_num_variables()) >= 1:
+            VU.impl_data(o)
+            o.get_qubo(feasibility=True)
+        g = VU.graph_of(o)
+        names = [nd[0] for nd in g["nodes"]]
+        if len(names) < 2:
+            return
+        k = case.get("seed", 0)
+        # prefer a destination whose window never closes (accepted by the strict rule as well)
+        dests = [i for i, nd in enumerate(g["nodes"]) if nd[3] == core.INF and i != 0] or list(range(1, len(names)))
+        j = dests[k % len(dests)]
+        i = [x for x in range(1, len(names)) if x != j][k % max(1, len(names) - 2)] if len(names) > 2 else 0
+        added = o.add_arc(names[i], names[j], 1.0, 2.0)
+        if form == "arc" and k % 2:
+            o.add_time_points(sorted({float(t) for t in o.time_points} | {float(max([0.0] + [float(t) for t in o.time_points]) + 1.0)}))
+        if form == "seq" and k % 3 == 0:
+            o.set_max_vehicles(int(o.max_vehicles) + 1)
+        res.features.append(f"query-mutate-query:{'arc-added' if added else 'arc-refused'}")
+    except Exception as e:  # noqa
+        res.fail(f"{form}:mutator-raises", f"changing the problem through the object after a query raised {e!r}")
+        return
+    check_fresh_twin(o, form, res)
+
+
 def inst_tokens(o, form):
     """protocol literal of the real object's current instance state"""
     g = VU.graph_tokens(VU.graph_of(o))
